@@ -1164,3 +1164,67 @@ def rule_t5(P):
     if n < 1:
         raise E5Error("T5: no function hands out a freshly computed name id")
     return findings, obl, {"t5_allocating_functions": n}
+
+
+def rule_l6(P):
+    """Losslessness needs every byte of the input to end up in some lexeme.  The parser stops at the first Eof lexeme, so the lexer
+    may produce Eof only when the input is exhausted - never because a byte *value* equals an end-of-input sentinel (a NUL byte in
+    the source used to end the file silently).  Structural clause: in Lexer::next_token every construction of Kind::Eof is
+    dominated by the `None` edge of the Option that Lexer::bump returned."""
+    from common import norm_fn
+    findings, obl = [], []
+    nt = [k for k, b in P.bodies.items() if (b.get("impl_self") or "").split("<")[0] == "fea_rs::parse::lexer::Lexer" and k.endswith("::next_token")]
+    if len(nt) != 1:
+        raise E5Error(f"L6: Lexer::next_token not found: {nt}")
+    key = nt[0]
+    b = P.bodies[key]
+    cfg = CFG(b)
+    dom = cfg.dominators()
+    # the None edge of bump()'s result
+    none_targets = set()
+    for bi, blk in enumerate(b["blocks"]):
+        t = blk["t"]
+        if t["t"] == "call" and not blk["cl"] and (t["f"].get("k") or {}).get("res", "").endswith("::lexer::{impl#1}::bump") or \
+                (t["t"] == "call" and not blk["cl"] and ((t["f"].get("k") or {}).get("res") or "").rsplit("::", 1)[-1] == "bump"):
+            d = t["d"][0] if len(t["d"]) == 1 else None
+            if d is None:
+                continue
+            for b2i, b2 in enumerate(b["blocks"]):
+                disc = [st["d"][0] for st in b2["s"] if st["rv"].get("r") == "discr" and st["rv"].get("p") == [d] and len(st["d"]) == 1]
+                t2 = b2["t"]
+                if disc and t2["t"] == "sw" and operand_local(t2["o"]) in disc:
+                    for v, tg in zip(t2["v"], t2["to"][:-1]):
+                        if v == "0":
+                            none_targets.add(tg)
+                    if "0" not in t2["v"] and len(t2["v"]) == 1 and t2["v"][0] == "1":
+                        none_targets.add(t2["to"][-1])
+    eof_blocks = []
+    for bi, blk in enumerate(b["blocks"]):
+        if blk["cl"]:
+            continue
+        for st in blk["s"]:
+            rv = st["rv"]
+            if rv.get("r") == "agg" and rv.get("adt") == "fea_rs::parse::lexer::lexeme::Kind" and rv.get("v") == "Eof":
+                eof_blocks.append((bi, st["l"]))
+    if not eof_blocks:
+        raise E5Error("L6: next_token never builds Kind::Eof")
+    for bi, line in eof_blocks:
+        ok = any(tn in dom.get(bi, set()) or tn == bi for tn in none_targets)
+        obl.append({"rule": "L6", "inst": f"next_token builds Kind::Eof (line-independent site {len(obl)}) only after bump() returned None", "ok": ok})
+        if not ok:
+            findings.append({"rule": "L6", "key": f"L6|{norm_fn(key)}", "msg": f"{key} produces an Eof lexeme on a path that is not the `None` result of bump(): an input byte that "
+                             f"equals the end-of-input sentinel ends the token stream early and the rest of the source is missing from the parse tree (not lossless, no diagnostic)",
+                             "loc": P.site_loc(key, line), "detail": {}})
+    # nobody else in the lexer manufactures Eof lexemes
+    others = []
+    for k2, b2 in P.bodies.items():
+        if k2.startswith("fea_rs::parse::lexer::") and k2 != key and "#promoted" not in k2 and b2.get("dk") in ("Fn", "AssocFn", "Closure") and not k2.startswith("fea_rs::parse::lexer::lexeme::"):
+            for blk in b2["blocks"]:
+                for st in blk["s"]:
+                    rv = st["rv"]
+                    if rv.get("r") == "agg" and rv.get("adt") == "fea_rs::parse::lexer::lexeme::Kind" and rv.get("v") == "Eof":
+                        others.append(k2)
+    obl.append({"rule": "L6", "inst": "no other lexer function builds Kind::Eof", "ok": not others})
+    for k2 in sorted(set(others)):
+        findings.append({"rule": "L6", "key": f"L6|other|{norm_fn(k2)}", "msg": f"{k2} builds Kind::Eof outside next_token's end-of-input path", "loc": P.body_file_line(k2), "detail": {}})
+    return findings, obl, {"l6_eof_sites": len(eof_blocks)}
